@@ -196,7 +196,7 @@ def run(ctx):
     chk.analysed["dispatch_paths"] = len(paths)
 
     # ---------------------------------------------------------------- R01.d
-    _order_relation(ctx, sched, add)
+    ctx.attempt(_order_relation, ctx, sched, add)
 
     # ---------------------------------------------------------------- R01.b
     n_w = 0
